@@ -1,4 +1,5 @@
-import EaModel.Properties.SchedCommon
+import EaModel.Properties.C01
+import EaModel.Lemmas.Create
 /-!
 # C08 — one-shot and countdown jobs fire exactly when promised
 -/
@@ -50,6 +51,56 @@ theorem once_finishes (setT : St → St) (s : St) (j : Nat) (t : Int) (hk : (s.j
 theorem queued_once (env : Env) (now : Int) (en : Bool) (ops : List Op) :
     (runOps (initSt env now en) ops).queue.Nodup :=
   (inv_reachable env now en ops).q.nodup
+
+/-- A one-shot job fires exactly when promised: in every reachable state, `once(t)` for a future instant `t`
+on a fresh handle succeeds and queues the job for `t`; if the loop then sleeps past `t`, the job is executed at
+the instant `t` itself with the due time `t` — whatever other jobs exist and whatever they do. -/
+theorem once_runs_at_its_instant (env : Env) (now : Int) (en : Bool) (ops : List Op) (j : Nat) (key : Option Nat)
+    (t d : Int) (ef tf : List Nat) :
+    let s := runOps (initSt env now en) ops
+    s.enabled = true → (s.job j).status = .created → s.dupKey key = false → t > s.now → t ≤ s.now + d →
+    let s1 := (step s (.create j key (.once t) ef tf)).1
+    let s2 := (step s1 (.sleep d)).1
+    (step s (.create j key (.once t) ef tf)).2 = none ∧ s1.nr j = some t ∧
+    (C01.Exhausted s2 ∨ ∃ l, s2.log = l ++ s1.log ∧ Ev.exec j t t ∈ l) := by
+  intro s hen hfresh hkey ht hle s1 s2
+  have hI : Inv s := inv_reachable env now en ops
+  obtain ⟨h1, h2, h3⟩ := create_once_queued s j key t ef tf hI hfresh hkey ht
+  refine ⟨h1, h3, ?_⟩
+  have hc := C01.due_jobs_executed_at_their_time env now en (ops ++ [.create j key (.once t) ef tf]) j t d
+  have hs1 : runOps (initSt env now en) (ops ++ [.create j key (.once t) ef tf]) = s1 := by
+    unfold runOps; rw [List.foldl_append]; rfl
+  simp only [hs1] at hc
+  have hn1 : s1.now = s.now ∧ s1.enabled = s.enabled :=
+    ⟨(createJob_clock s j key (.once t) ef tf _ hI).now, (createJob_clock s j key (.once t) ef tf _ hI).enabled⟩
+  have := hc (by rw [hn1.2]; exact hen) h2 h3 (by rw [hn1.1]; exact hle)
+  rw [if_pos (by rw [hn1.1]; exact ht)] at this
+  exact this
+
+/-- A countdown job fires at (instant of the reset + countdown value): in every reachable state, `reset()` of a
+linked countdown job with a positive countdown queues it for now + countdown; if the loop then sleeps past that
+instant, the job is executed exactly then. -/
+theorem countdown_runs_at_reset_plus_countdown (env : Env) (now : Int) (en : Bool) (ops : List Op) (j : Nat) (d : Int) :
+    let s := runOps (initSt env now en) ops
+    s.enabled = true → isCountdown (s.job j) = true → (s.job j).linked = true → 0 < (s.job j).secs →
+    (s.job j).secs ≤ d →
+    let s1 := (step s (.reset j)).1
+    let s2 := (step s1 (.sleep d)).1
+    (step s (.reset j)).2 = none ∧ s1.nr j = some (s.now + (s.job j).secs) ∧
+    (C01.Exhausted s2 ∨
+      ∃ l, s2.log = l ++ s1.log ∧ Ev.exec j (s.now + (s.job j).secs) (s.now + (s.job j).secs) ∈ l) := by
+  intro s hen hc hl hpos hle s1 s2
+  have hI : Inv s := inv_reachable env now en ops
+  obtain ⟨h1, h2, h3⟩ := reset_queued s j hI hc hl hpos
+  refine ⟨h1, h3, ?_⟩
+  have hx := C01.due_jobs_executed_at_their_time env now en (ops ++ [.reset j]) j (s.now + (s.job j).secs) d
+  have hs1 : runOps (initSt env now en) (ops ++ [.reset j]) = s1 := by
+    unfold runOps; rw [List.foldl_append]; rfl
+  simp only [hs1] at hx
+  have c := reset_clock s j hI
+  have := hx (by rw [c.enabled]; exact hen) h2 h3 (by rw [c.now]; omega)
+  rw [if_pos (by rw [c.now]; omega)] at this
+  exact this
 
 -- non-vacuity (executable checks): reset at 2 with 5 s fires at 7; a second reset at 4 moves it to 9
 #guard ((runOps (initSt {} 0) [.create 1 none (.countdown 5) [] [], .advance 2, .reset 1, .sleep 10]).log.filterMap
